@@ -208,6 +208,36 @@ PROBES = {
 }
 
 
+PROBES.update({
+    "C04": [
+        ("true && out a || out b", expect("a\n")),
+        ("false && out a && out b ; out c", expect("c\n")),
+        ("true || out a || out b ; out c", expect("c\n")),
+    ],
+    "C05": [
+        ("try { true || out b || out c }\nout d", expect("d\n")),
+        ("try { out a ; false ; out b }", expect("a\nfalse", nonzero=True)),
+        ("try { false || out b }", expect("b\n")),
+    ],
+    "C07": [
+        ("if { out false } then { out T } else { out F }", expect("F\n")),
+        ("if { out 'anything' } then { out T } else { out F }", expect("T\n")),
+        ("out (false && true)", expect("false\n")),
+        ("out (0 || 0)", expect("false\n")),
+        ("out (1 && true)", expect("true\n")),
+    ],
+    "C16": [
+        ('tout json ([\"a\",\"b\",\"c\"]) -> [1]', expect("b")),
+        ('tout json ([\"a\",\"b\",\"c\"]) -> [-1]', expect("c")),
+        ('tout json ([\"a\",\"b\",\"c\"]) -> [3]', expect(nonzero=True)),
+        ('tout json ([\"a\",\"b\",\"c\"]) -> [-4]', expect(nonzero=True)),
+    ],
+    "C11": [
+        ("global verifg = g\nfunction verif.v { set verifg = l ; out $verifg }\nverif.v\nout $verifg", expect("l\ng\n")),
+    ],
+})
+
+
 def t_probes(rep, ints):
     pid = rep.get("property", "")
     if pid not in PROBES:
